@@ -310,7 +310,7 @@ def check_extension(case):
         j = int(np.argmin(hit))
         x = {v: ((1 - 2 * ((j >> st.mapping[v]) & 1)) if st.spin_m else ((j >> st.mapping[v]) & 1)) for v in st.vs}
         return Fail("no extension of x=%r reaches M(x)=%r; D over the extensions takes %r"
-                    % (x, st.Mtab[j], sorted(set(Dm[:, j].tolist()))), key="no-exact-extension",
+                    % (x, float(st.Mtab[j]), sorted(set(Dm[:, j].tolist()))), key="no-exact-extension",
                     observed=repr(st.d))
     return None
 
@@ -328,7 +328,7 @@ def check_undercut(case):
         mv, f = _m_of_converted(st, i)
         if f is not None:
             return f
-        dv = st.Dtab[i]
+        dv = float(st.Dtab[i])
         if dv < mv - TOL * max(1.0, abs(mv)):
             return Fail("D(s)=%r < M(convert_solution(s))=%r at s=%r" % (dv, mv, _assignment(i, st.N, st.spin_d)),
                         key="undercut", observed=repr(st.d))
@@ -447,6 +447,6 @@ def check_pairs(case):
                 return f
             if st.Dtab[i] < mv - TOL * max(1.0, abs(mv)):
                 return Fail("with pairs=%r: D(s)=%r < M(convert_solution(s))=%r at s=%r"
-                            % (case["pairs"], st.Dtab[i], mv, _assignment(i, N, st.spin_d)), key="undercut",
+                            % (case["pairs"], float(st.Dtab[i]), mv, _assignment(i, N, st.spin_d)), key="undercut",
                             observed=repr(st.d))
     return None
